@@ -74,10 +74,27 @@ RECURSIVE ChainsOf(_)
 ChainsOf(n) == IF n = 0 THEN {<<>>} ELSE LET c == ChainsOf(n - 1) IN c \cup {x \o p : x \in {y \in c : TRUE}, p \in Postfix}
 ChainKinds(zzdummy) == LET cs == ChainsOf(N) \ {<<>>}
               IN {<<"Ident">> \o c : c \in cs} \cup {<<"At">> \o c : c \in cs} \cup {<<"Not", "Ident">> \o c : c \in cs}
+                 \cup {<<"Lbracket", "Num", "Rbracket">> \o c : c \in ChainsOf(N - 1) \ {<<>>}}        \* a bare index first
 ChainCases(zzdummy) ==
   LET all == SetToSeq(ChainKinds(0))
-      pairs == SetToSeq({<<i, d>> : i \in DOMAIN all, d \in {2, 13, 14, 15}})
-  IN [x \in DOMAIN pairs |-> [e |-> "eval", text |-> Spell(Toks(all[pairs[x][1]], 0), "tight", 0), d |-> pairs[x][2]]]
+      pairs == SetToSeq({<<i, d, j>> : i \in DOMAIN all, d \in {2, 13, 14, 15}, j \in {0, 1}})   \* both assignments of the names a / b
+  IN [x \in DOMAIN pairs |-> [e |-> "eval", text |-> Spell(Toks(all[pairs[x][1]], pairs[x][3]), "tight", 0), d |-> pairs[x][2]]]
+
+(* filter predicates that are themselves chains (a projection, then a pipe / index / field / call that looks past its first result),
+   nested filters whose inner predicate holds for null, each also under "!" and followed by one more link *)
+PredLinks == {<<"Dot", "Ident">>, <<"Lbracket", "Num", "Rbracket">>, <<"Lbracket", "Star", "Rbracket">>, <<"Flatten">>, <<"Pipe", "Lbracket", "Num", "Rbracket">>,
+              <<"Pipe", "At">>, <<"Lbracket", "Num", "Colon", "Rbracket">>, <<"Filter", "Not", "At", "Rbracket">>, <<"Filter", "At", "Cmp", "Lit", "Rbracket">>,
+              <<"Filter", "Ident", "Rbracket">>, <<"Dot", "Star">>}
+PredChains == LET one == {<<"Ident">> \o p : p \in PredLinks} \cup {<<"At">> \o p : p \in PredLinks}
+              IN one \cup {x \o p : x \in one, p \in PredLinks}
+PredTails == {<<>>, <<"Dot", "Ident">>, <<"Lbracket", "Num", "Rbracket">>, <<"Pipe", "Lbracket", "Num", "Rbracket">>, <<"Lbracket", "Star", "Rbracket">>}
+PredKinds(zzdummy) ==
+  {st \o <<"Filter">> \o neg \o p \o <<"Rbracket">> \o tl : st \in {<<"Ident">>, <<"At">>}, neg \in {<<>>, <<"Not">>}, p \in PredChains, tl \in PredTails}
+  \cup {<<"Not", "Lparen", "Ident", "Filter">> \o p \o <<"Rbracket", "Rparen">> : p \in PredChains}
+PredCases(zzdummy) ==
+  LET all == SetToSeq(PredKinds(0))
+      pairs == SetToSeq({<<i, d, j>> : i \in DOMAIN all, d \in {13, 15}, j \in {0, 1}})        \* both assignments of the names a / b
+  IN [x \in DOMAIN pairs |-> [e |-> "eval", text |-> Spell(Toks(all[pairs[x][1]], pairs[x][3]), "tight", 0), d |-> pairs[x][2]]]
 
 NoAmp(s) == \A i \in DOMAIN s : s[i] # "Amp"
 
@@ -92,7 +109,8 @@ SpellCases(zzdummy) ==
   LET ps == ndJsonDeserialize(IOEnv.IN)
   IN [i \in DOMAIN ps |-> [e |-> "eval", text |-> Spell(ps[i].toks, "spaced", 0), doc |-> ps[i].doc]]
 
-Cases(zzdummy) == IF IOEnv.MODE = "sent" THEN SentCases(0) ELSE IF IOEnv.MODE = "chains" THEN ChainCases(0) ELSE SpellCases(0)
+Cases(zzdummy) == IF IOEnv.MODE = "sent" THEN SentCases(0) ELSE IF IOEnv.MODE = "chains" THEN ChainCases(0)
+                  ELSE IF IOEnv.MODE = "preds" THEN PredCases(0) ELSE SpellCases(0)
 ASSUME ndJsonSerialize(IOEnv.OUT, Cases(0))
 ASSUME ndJsonSerialize(IOEnv.OUT \o ".docs", <<[docs |-> DocPool]>>)
 =============================================================================
